@@ -398,7 +398,9 @@ ConvOut(T, cv, K) ==
        ELSE LET ps == [i \in 1 .. Len(cv.ps) |-> KV(ConvOut(T.kt, cv.ps[i].key, K.kk), ConvOut(T.vt, cv.ps[i].val, K.vk))] IN
             IF \E i \in 1 .. Len(ps) : IsErr(ps[i].key) \/ IsErr(ps[i].val) THEN VErr ELSE VMap(ps)
   ELSE IF t \in {"tuple", "udt"} THEN
-       IF cv.k # "tuple" \/ g \notin {"struct", "ifaces", "slice", "array"} \/ (g \in {"slice", "array"} /\ t = "udt") THEN VErr
+       \* a []interface{} target is honoured only at top level, where the caller supplies the pointers
+       \* (ConvOutTop); nested, the driver chooses the dynamic types itself: no claim
+       IF cv.k # "tuple" \/ g \notin {"struct", "slice", "array"} \/ (g \in {"slice", "array"} /\ t = "udt") THEN VErr
        ELSE LET es == [i \in 1 .. Len(cv.es) |-> ConvOut(T.es[i], cv.es[i], IF g \in {"slice", "array"} THEN K.e ELSE K.es[i])] IN
             IF SeqAny(es, IsErr) THEN VErr ELSE VTuple(es)
   ELSE IF ~Target(t, g) THEN VErr
@@ -410,6 +412,10 @@ ConvOut(T, cv, K) ==
         ELSE IF BLe(FromInt(-719162), BigOf(cv)) /\ BLe(BigOf(cv), FromInt(2932896)) THEN cv ELSE VErr)   \* layout "2006-01-02": years 0001..9999
   ELSE IF t = "inet" THEN VBytes(NormIP(cv.b))
   ELSE cv
+ConvOutTop(T, cv, K) ==
+  IF K.g = "ifaces" /\ T.t = "tuple" /\ cv.k = "tuple" /\ Len(K.es) = Len(cv.es)
+  THEN LET es == [i \in 1 .. Len(cv.es) |-> ConvOut(T.es[i], cv.es[i], K.es[i])] IN IF SeqAny(es, IsErr) THEN VErr ELSE VTuple(es)
+  ELSE ConvOut(T, cv, K)
 \* an error is an accepted outcome of this decode (a wrong value never is)
 RECURSIVE OutMayErr(_, _, _)
 OutMayErr(T, cv, K) ==
